@@ -190,6 +190,10 @@ def drive(col: Collector, make_test, seed, max_examples, shrink=True, max_failur
     import hypothesis
     from hypothesis import errors as herr
 
+    # the shrinker may spend minutes on one failure (hard cap 5 min): the quick tier reports the
+    # failing case as found, the thorough tier shrinks it
+    if col.spec.get("tier", "quick") == "quick":
+        shrink = False
     for attempt in range(max_failures + 1):
         test = make_test()
         test = hyp_settings(max_examples, shrink=shrink)(test)
